@@ -9,7 +9,7 @@ use std::path::PathBuf;
 use std::str::FromStr;
 use std::sync::Arc;
 
-use chrono::{DateTime, FixedOffset, Local};
+use chrono::{DateTime, FixedOffset, Local, TimeZone};
 use clap::builder::{TypedValueParser, ValueParserFactory};
 
 use clap::{command, Arg, Error};
@@ -99,12 +99,19 @@ impl ValueParserFactory for Path {
 
 /// Parses date time string, accepts wide range of human-readable formats
 fn parse_date_time(s: &str) -> Result<DateTime<FixedOffset>, String> {
+    // The parsed date and time are the wall clock time in the given (or the local) time zone.
+    // If that time exists twice, when the clocks are turned back, the earlier one is the safe limit.
+    let not_a_time = || format!("Failed to parse {s} as date: no such time in the time zone");
     match dtparse::parse(s) {
-        Ok((dt, Some(offset))) => Ok(DateTime::from_naive_utc_and_offset(dt, offset)),
-        Ok((dt, None)) => {
-            let local_offset = *Local::now().offset();
-            Ok(DateTime::from_naive_utc_and_offset(dt, local_offset))
-        }
+        Ok((dt, Some(offset))) => offset
+            .from_local_datetime(&dt)
+            .earliest()
+            .ok_or_else(not_a_time),
+        Ok((dt, None)) => Local
+            .from_local_datetime(&dt)
+            .earliest()
+            .map(|t| t.fixed_offset())
+            .ok_or_else(not_a_time),
         Err(e) => Err(format!("Failed to parse {s} as date: {e}")),
     }
 }
